@@ -88,6 +88,9 @@ void fsv_harness(void)
   oracle(ROUNDS == 2 ? in_e2 : in_e, want);
   const fsv_f64* e = ROUNDS == 2 ? in_e2 : in_e;
   for (int i = 0; i < N; i++) {
+#ifdef ONLY_NODE
+    if (i != ONLY_NODE) continue;
+#endif
     if (S_cnt[i] == 1 && S_rec[i * R] == (uint64_t)i) FSV_ASSERT(erosion[i] == 0.0, "no erosion at outlets and pits (self receivers)");
     FSV_ASSERT(erosion[i] == want[i] || (FSV_ISNAN(erosion[i]) && FSV_ISNAN(want[i])),
                "erosion equals the direct solution of the backward-Euler discrete equation (limited at the receivers' new level, zero in lakes)");
